@@ -16,7 +16,7 @@ TESTS=""
 for f in $(git diff --name-only | grep '\.py$'); do t=${f%.py}_test.py; [ -f $t ] && TESTS="$TESTS $t"; done
 echo "upstream tests: $TESTS"
 PYTHONPATH=$PP /venv/bin/python -m pytest -q -p no:cacheprovider $TESTS 2>&1 | tail -2 | tee /tmp/confirm_tests.log
-if [ $RC_WITH -ne 0 ] && [ $RC_WITHOUT -eq 0 ] && ! grep -q "failed" /tmp/confirm_tests.log; then
+if [ $RC_WITH -ne 0 ] && [ $RC_WITHOUT -eq 0 ] && ! grep -qE "(^|[ ,])[0-9]+ (failed|error)" /tmp/confirm_tests.log; then
   D=/verif/seeded/$NAME; mkdir -p $D
   cp /tmp/confirm.patch $D/patch.diff; cp $DEMO $D/; [ -f meta.json ] && cp meta.json $D/meta.json
   echo "CONFIRMED -> $D"
